@@ -246,6 +246,53 @@ def run(ctx):
                      kind="history", tag="stale-processor-flag")
         world.clear_pending()
 
+    # "every ACTIVE metric processor": the processors as the agent itself loads them (api/plugin load_plugins), some switched off by
+    # configuration (PLUGIN_<NAME>, the name upper-cased): a processor that is switched off receives nothing, and with none active the
+    # hit reports nothing and uses no budget
+    import sys as _sys, types as _types
+    import deep.api.plugin as _pl
+    shared = []
+    mod = _types.ModuleType("verif_c17_plugins")
+
+    def _mk(cname):
+        def _init(self, name=None, config=None):
+            RecMetrics.__init__(self, shared, cname)
+            self.config = config
+        return type(cname, (RecMetrics,), {"__init__": _init, "__module__": "verif_c17_plugins"})
+    names = ["RecorderA", "RecorderB", "recorder_c"]
+    for n_ in names:
+        setattr(mod, n_, _mk(n_))
+    _sys.modules["verif_c17_plugins"] = mod
+    try:
+        for k in range(2 ** len(names) * (2 if ctx.thorough else 1)):
+            off = [n_ for i_, n_ in enumerate(names) if (k >> i_) & 1]
+            custom = {("PLUGIN_%s" % n_.upper()): rng.choice(["false", "False", False]) for n_ in off}
+            world = e2.World(logger=False, spans=0, metrics=0, custom=custom)
+            del shared[:]
+            loaded = _pl.load_plugins(world.cfg, ["verif_c17_plugins.%s" % n_ for n_ in names])
+            world.cfg.plugins = [p_ for p_ in loaded if type(p_).__module__ == "verif_c17_plugins"]
+            action = LocationAction("tp-m", None, {"metrics": [MetricDefinition("hits", "COUNTER"), MetricDefinition("g", "GAUGE", [], "1")],
+                                                   "fire_count": "1", "fire_period": "0"}, LocationAction.ActionType.Metric)
+            world.install([Trigger(LineLocation("m.py", 7, Location.Position.START), [action])])
+            world.event(e2.mk_frame("/app/m.py", "g", 7, {}), "line")
+            got = {}
+            for w_, _t, _i, p_ in shared:
+                if w_ == "metric":
+                    got[p_["proc"]] = got.get(p_["proc"], 0) + 1
+            want = {n_: 2 for n_ in names if n_ not in off}
+            j = dict(loaded_by_the_agent=names, switched_off=off, reports=got)
+            ctx.case(j, nontrivial=bool(off), bucket="loaded-processors")
+            if got != want:
+                ctx.fail("metric processors loaded by load_plugins with %r switched off by configuration: reports per processor %r, "
+                         "expected %r (two definitions, one hit, each ACTIVE processor once per definition)" % (off, got, want), j,
+                         tag="inactive-processor-reported")
+            if len(off) == len(names) and e2.stats_of(action)[0] != 0:
+                ctx.fail("no metric processor is active (all switched off), yet the hit used the fire budget of the metric tracepoint", j,
+                         tag="budget-without-processor")
+            world.clear_pending()
+    finally:
+        _sys.modules.pop("verif_c17_plugins", None)
+
 
 def replay(ctx, data):
     ctx.fail("replay re-runs the seeded generation: VERIF_SEED=%s check.py C17" % data.get("seed"))
